@@ -293,12 +293,38 @@ let judge_m (input : string) (impl : string) (model : string) : verdict =
            end) items
      with _ -> res := Some (Mismatch "malformed M output"));
     !res in
+  (* coverage against Apple's table (Model/MacRomanRef.v): a byte without a character, or a
+     character of the table without a byte, is a conformance gap (known finding C06-macroman-coverage) *)
+  let coverage () =
+    let res = ref None in
+    (try
+       List.iteri (fun k it ->
+           if !res = None && it = "n/-" then begin
+             let b = int_of_string (List.nth bs k) in
+             if b >= 0 && b < 256 then
+               res := Some (Violation ("macroman-coverage", Printf.sprintf
+                                         "byte %d is U+%04X in Mac OS Roman but macroman_to_char returns None" b
+                                         (z_to_int (macroman_ref (z_of_int b)))))
+           end) (csv (get "b" impl));
+       List.iteri (fun k it ->
+           if !res = None && it = "n/-" then begin
+             let c = int_of_string (List.nth cs k) in
+             let hit = ref (-1) in
+             for b = 128 to 255 do if z_to_int (macroman_ref (z_of_int b)) = c then hit := b done;
+             if !hit >= 0 then
+               res := Some (Violation ("macroman-coverage", Printf.sprintf
+                                         "U+%04X is byte %d in Mac OS Roman but char_to_macroman returns None" c !hit))
+           end) (csv (get "c" impl))
+     with _ -> ());
+    !res in
   match check "macroman_to_char;char_to_macroman" bs (csv (get "b" impl)) with
   | Some v -> v
   | None ->
     match check "char_to_macroman;macroman_to_char" cs (csv (get "c" impl)) with
     | Some v -> v
-    | None -> if impl = model then Agree else Mismatch "Mac Roman tables differ from the translated tables"
+    | None ->
+      if impl <> model then Mismatch "Mac Roman tables differ from the translated tables"
+      else match coverage () with Some v -> v | None -> Agree
 
 let judge (input : string) (impl : string) (model : string) : verdict =
   if starts_with "MODEL-EXN" model then Mismatch model
